@@ -43,8 +43,29 @@ func clip63(s string) string {
 	return s[:n]
 }
 
+// translate is the fixed pattern translation: an unescaped * becomes %, an
+// unescaped ? becomes _, everything else (escaped characters with their backslash
+// included) is copied.
 func translate(p string) string {
-	return strings.ReplaceAll(strings.ReplaceAll(p, "*", "%"), "?", "_")
+	var b strings.Builder
+	esc := false
+	for _, r := range p {
+		switch {
+		case esc:
+			esc = false
+			b.WriteRune(r)
+		case r == '\\':
+			esc = true
+			b.WriteRune(r)
+		case r == '*':
+			b.WriteByte('%')
+		case r == '?':
+			b.WriteByte('_')
+		default:
+			b.WriteRune(r)
+		}
+	}
+	return b.String()
 }
 
 // hostileString draws a string from the hostile pool; raw allows NUL and invalid
